@@ -10,8 +10,9 @@
    replace_bundle_inst / resolve_bundleref: `for portref in list(b._connected_ports): replace_bundle_conn(..)`) enter the
    pipeline model by their NET EFFECT (rewrite_inst_g; Model/C01GBundlePasses.v:flat_xinst); that this effect - the ORDERED
    connection dict - is the same for every visiting order is Props/C12.v (C12_replace_keeps_order, C12_order_irrelevant,
-   C12_order_irrelevant_module), proved on the statement-by-statement loop model Model/C12Order.v.  PARTIAL: those loop
-   theorems are not re-derived inside pipeline_o (see notes/C12E.md).
+   C12_order_irrelevant_module), proved on the statement-by-statement loop model Model/C12Order.v, and - for the VALUES written
+   by resolve_portref / update_ref_deps - theorems 7 below (Model/C12EWrites.v).  PARTIAL: those loop theorems are not
+   re-derived inside pipeline_o (see notes/C12E.md).
 
    NOT modelled (as in Props/C12.v): CPython's hash randomisation, id()-based hashing and the allocator themselves - they are the
    SOURCE of the different orders; every order they could produce is covered by the quantifier over oracles.  Sets that are
@@ -22,6 +23,7 @@ Require Import Hdl21.Base.PyInt Hdl21.Spec.PySlice Hdl21.Model.Slice Hdl21.Model
                Hdl21.Model.C12EOrdered Hdl21.Proofs.C12EProofsDfs Hdl21.Proofs.C12EProofsGroups Hdl21.Proofs.C12EProofsPlan
                Hdl21.Proofs.C12EProofsEnd.
 Require Hdl21.Props.C01F.
+Require Import Hdl21.Model.C12EWrites.
 From Coq Require Import String Ascii Permutation.
 Open Scope string_scope.
 Open Scope list_scope.
@@ -166,3 +168,34 @@ Example C12E_ex_c01f_same_package : exists p,
   pipeline_o ord_id C01F.ex2_xinfo C01F.ex2_design = Ok p /\ pipeline_o ord_rev C01F.ex2_xinfo C01F.ex2_design = Ok p /\
   pipeline_o ord_mix C01F.ex2_xinfo C01F.ex2_design = Ok p /\ elab_export_model2 C01F.ex2_xinfo C01F.ex2_design = Ok p.
 Proof. vm_compute. eexists. repeat split. Qed.
+
+(* 7. THE RECONNECT LOOPS AS SEQUENCES OF WRITES (Model/C12EWrites.v): resolve_portref's `pref.inst.connect(portname, source)`
+      and update_ref_deps's `for cp in list(ref._connected_ports): cp.inst.replace(cp.portname, resolved)` are writes
+      `conns[port] = value` to an instance's ordered dict (in place when the port is connected, a new entry at the end when not).
+      ANY sequence of writes in which every port always receives the same value (its group's source: `consistent`) has a closed
+      form that mentions the sequence only through the SET of ports written and the order in which NEW ports are FIRST written ... *)
+Theorem C12E_writes_closed_form (V : Type) (f : string -> V) ws c :
+  consistent V f ws -> NoDup (map fst c) -> apply_writes V ws c = written_form V f (map fst ws) c.
+Proof. exact (apply_writes_closed V f ws c). Qed.
+Print Assumptions C12E_writes_closed_form.
+
+(* ... so two runs of the loops in two visiting orders (same ports written, same values; new ports - at most the one unconnected
+      owner per group and instance, groups in seed order - first written in the same order) leave the SAME ORDERED dict.
+      PARTIAL with respect to pipeline_o: that rewrite_inst_g IS this closed form for the write sequence the code produces is
+      argued in notes/C12E.md, not proved. *)
+Theorem C12E_resolve_writes_order_free (V : Type) (f : string -> V) ws1 ws2 c :
+  consistent V f ws1 -> consistent V f ws2 -> NoDup (map fst c) ->
+  (forall k, In k (map fst ws1) <-> In k (map fst ws2)) ->
+  new_keys (map fst ws1) (map fst c) = new_keys (map fst ws2) (map fst c) ->
+  apply_writes V ws1 c = apply_writes V ws2 c.
+Proof. exact (apply_writes_order_free V f ws1 ws2 c). Qed.
+Print Assumptions C12E_resolve_writes_order_free.
+
+(* instance `a` of ex_ring (r, q, p all rewritten to the source, here 7) in two visiting orders, one with a repeated write;
+   and an instance whose unconnected port z is the owner of a group: the new entry goes to the end *)
+Example C12E_ex_writes :
+  apply_writes nat [("p", 7%nat); ("q", 7%nat); ("r", 7%nat)] [("r", 0%nat); ("q", 1%nat); ("p", 2%nat)] =
+  apply_writes nat [("r", 7%nat); ("p", 7%nat); ("q", 7%nat); ("p", 7%nat)] [("r", 0%nat); ("q", 1%nat); ("p", 2%nat)] /\
+  apply_writes nat [("z", 5%nat); ("w", 7%nat); ("z", 5%nat)] [("w", 0%nat); ("v", 1%nat)] = [("w", 7%nat); ("v", 1%nat); ("z", 5%nat)] /\
+  apply_writes nat [("w", 7%nat); ("z", 5%nat)] [("w", 0%nat); ("v", 1%nat)] = [("w", 7%nat); ("v", 1%nat); ("z", 5%nat)].
+Proof. vm_compute. repeat split. Qed.
